@@ -636,7 +636,27 @@ func (w *Worker) callMerged(caller *frame, fn *ssa.Function, args []Value, env [
 		if m, ok := w.mergeOutcomes(normal); ok {
 			groups = append(groups, m)
 		} else {
-			groups = append(groups, normal...)
+			// not all outcomes have the same shape: merge greedily into
+			// classes of mutually mergeable outcomes (deterministic order)
+			var classes [][]outcome
+			for _, o := range normal {
+				placed := false
+				for i := range classes {
+					cand := append(append([]outcome{}, classes[i]...), o)
+					if _, ok := w.mergeOutcomes(cand); ok {
+						classes[i] = cand
+						placed = true
+						break
+					}
+				}
+				if !placed {
+					classes = append(classes, []outcome{o})
+				}
+			}
+			for _, cl := range classes {
+				m, _ := w.mergeOutcomes(cl)
+				groups = append(groups, m)
+			}
 		}
 	}
 	groups = append(groups, pans...)
